@@ -88,8 +88,12 @@ func carrierFor(t *rapid.T, r *big.Rat) run.Node {
 			}
 		}
 	} else {
-		// 2.5 -> 25e-1
-		opts = append(opts, run.Node{T: "json.Number", S: txt + "0"})
+		// 2.5 -> 2.50, also as a decimal with another scale, and in exponent form
+		opts = append(opts, run.Node{T: "json.Number", S: txt + "0"}, run.Node{T: "decimal", S: txt + "00"}, run.Node{T: "json.Number", S: txt + "e0"}, run.Node{T: "json.Number", S: txt + "E+0"})
+	}
+	if r.Sign() == 0 {
+		// the zeros: negative zero and zeros with a scale are the number 0
+		opts = append(opts, run.Node{T: "json.Number", S: "-0"}, run.Node{T: "json.Number", S: "-0.0"}, run.Node{T: "json.Number", S: "0e5"}, run.Node{T: "decimal", S: "-0"}, run.Node{T: "decimal", S: "0e-3"}, run.Node{T: "float64", S: "-0"}, run.Node{T: "float32", S: "-0"})
 	}
 	return opts[rapid.IntRange(0, len(opts)-1).Draw(t, "carrier")]
 }
@@ -173,6 +177,21 @@ func c14Expr(t *rapid.T) (ast.Expr, string) {
 		{"reverse", ast.Call("reverse", ast.A(n))},
 		{"flatten-filter", ast.F("nn").With(ast.Step{Kind: ast.SFlatten}, ast.Step{Kind: ast.SFilter, Cond: ast.Bin(cmp, ast.Cur(), y)})},
 		{"or-default", ast.Bin("||", ast.F("z"), x)},
+		// a number where a string is expected or compared: sx is a string that
+		// contains the canonical text of x
+		{"contains-string", ast.Call("contains", ast.A(ast.F("sx")), ast.A(x))},
+		{"contains-strings", ast.Call("contains", ast.A(&ast.Chain{Head: ast.Head{Kind: ast.HMultiList, Items: []ast.Expr{ast.F("sx"), ast.F("tx")}}}), ast.A(x))},
+		{"equals-its-text", ast.Bin("==", x, ast.F("tx"))},
+		{"starts_with-number", ast.Call("starts_with", ast.A(ast.F("tx")), ast.A(x))},
+		{"find-number", ast.Call("find_first", ast.A(ast.F("sx")), ast.A(x))},
+		{"split-number", ast.Call("split", ast.A(ast.F("sx")), ast.A(x))},
+		{"join-number", ast.Call("join", ast.A(x), ast.A(&ast.Chain{Head: ast.Head{Kind: ast.HMultiList, Items: []ast.Expr{ast.F("sx"), ast.F("tx")}}}))},
+		{"sort-with-text", ast.Call("sort", ast.A(&ast.Chain{Head: ast.Head{Kind: ast.HMultiList, Items: []ast.Expr{x, ast.F("tx")}}}))},
+		{"length-number", ast.Call("length", ast.A(x))},
+		{"index-number", x.With(ast.Step{Kind: ast.SIndex, Index: 0})},
+		{"slice-number", ast.Paren(x).With(ast.Step{Kind: ast.SSlice, Stop: ast.I64(1)})},
+		{"field-of-number", x.With(ast.Step{Kind: ast.SField, Name: "a"})},
+		{"keys-number", ast.Call("keys", ast.A(x))},
 	}
 	tm := ts[rapid.IntRange(0, len(ts)-1).Draw(t, "template")]
 	return tm.e, tm.name
@@ -182,7 +201,9 @@ func c14Expr(t *rapid.T) (ast.Expr, string) {
 // the limits of the integer kinds stay exactly representable everywhere).
 var c14NoArith = map[string]bool{"compare": true, "compare-literal": true, "filter-compare": true, "contains": true, "equal-arrays": true, "equal-objects": true, "sort": true, "sort_by": true,
 	"max": true, "min": true, "max_by": true, "min_by": true, "truthy-and": true, "truthy-not": true, "truthy-filter": true, "type": true, "type-map": true, "to_number": true, "not_null": true,
-	"multiselect": true, "group_by-type": true, "zip": true, "reverse": true, "flatten-filter": true, "or-default": true, "plus": true}
+	"multiselect": true, "group_by-type": true, "zip": true, "reverse": true, "flatten-filter": true, "or-default": true, "plus": true,
+	"contains-string": true, "contains-strings": true, "equals-its-text": true, "starts_with-number": true, "find-number": true, "split-number": true, "join-number": true, "sort-with-text": true,
+	"length-number": true, "index-number": true, "slice-number": true, "field-of-number": true, "keys-number": true}
 
 // C14: results do not depend on which Go type carries a number.
 func TestC14_Carriers(t *testing.T) {
@@ -205,7 +226,9 @@ func TestC14_Carriers(t *testing.T) {
 		}
 		o := jv.VObj([]jv.Member{{K: "a", V: num()}, {K: "b", V: jv.VArr(nums())}})
 		zero := gen.Pick(t, "z", []jv.Val{jv.VNull(), jv.VInt(0), jv.VBool(false)})
-		doc := jv.VObj([]jv.Member{{K: "x", V: num()}, {K: "y", V: num()}, {K: "z", V: zero}, {K: "n", V: jv.VArr(n)}, {K: "m", V: jv.VArr(n)}, {K: "nn", V: jv.VArr([]jv.Val{jv.VArr(n), num(), jv.VArr(nums())})},
+		xv := num()
+		xt := jv.RatText(xv.R)
+		doc := jv.VObj([]jv.Member{{K: "x", V: xv}, {K: "sx", V: jv.VStr("id-" + xt + "-z")}, {K: "tx", V: jv.VStr(xt)}, {K: "y", V: num()}, {K: "z", V: zero}, {K: "n", V: jv.VArr(n)}, {K: "m", V: jv.VArr(n)}, {K: "nn", V: jv.VArr([]jv.Val{jv.VArr(n), num(), jv.VArr(nums())})},
 			{K: "r", V: jv.VArr(recs)}, {K: "o", V: o}, {K: "p", V: o}, {K: "s", V: jv.VStr("a,b,a,,a")}})
 		text := ast.RenderWith(e, gen.Chooser{T: t})
 		c.Case()
